@@ -1,7 +1,6 @@
 package main
 
 import (
-	"sync/atomic"
 	"bytes"
 	"context"
 	"fmt"
@@ -11,6 +10,7 @@ import (
 	"regexp"
 	"strings"
 	"sync"
+	"sync/atomic"
 	"syscall"
 	"time"
 )
